@@ -1,4 +1,5 @@
 import Lemmas.GSyncInv
+import Lemmas.GSyncSum
 /-!
 # C01 — a Wait channel is never released while the count stayed above zero
 
@@ -48,6 +49,25 @@ theorem wait_chan_closed_imp_zeroSeen_from (s : St) (hs : Inv s) (sched : List N
     rcases hcl with h0 | hmem
     · exact hne h0
     · exact hinv.sh.wopen (by rw [← heq]; exact hne) (by rw [← heq]; exact hmem)
+
+/-- The conservative judgement of the property can only be stricter than the exact one: in every
+reachable state the lower bound of the count (increments that have returned plus decrements
+that have merely been called) is at most the counter.  So at the instant the counter is zero —
+which `wait_chan_closed_imp_zeroSeen` guarantees to exist in the interval — the lower bound is
+not positive, and a monitor that reports only when the lower bound stayed > 0 over the whole
+interval cannot fire. -/
+theorem lb_le_count (progs : List (List Call)) (sched : List Nat) :
+    lb (run true (init true progs) sched).threads ≤ (run true (init true progs) sched).sh.count :=
+  lb_le_count_of_inv2 _ (run_inv2 _ sched (init_inv2 progs))
+
+/-- C01 for self-balanced client programs (every goroutine only decrements what it incremented
+before), with no semantic hypothesis left: for every such program and EVERY schedule. -/
+theorem wait_chan_closed_imp_zeroSeen_selfBalanced (progs : List (List Call)) (hb : SelfBalanced progs)
+    (sched : List Nat) :
+    ∀ t ∈ (run true (init true progs) sched).threads, ∀ r ∈ t.recs,
+      isClosed (run true (init true progs) sched).sh r.ch = true →
+      zeroSeen (run true (init true progs) sched).sh r = true :=
+  wait_chan_closed_imp_zeroSeen progs sched (selfBalanced_nonneg progs hb sched)
 
 /-- Mutual exclusion of `Add`'s critical section, in every reachable state. -/
 theorem add_mutual_exclusion (progs : List (List Call)) (sched : List Nat)
